@@ -12,6 +12,7 @@ import (
 	compact_time "github.com/kstenerud/go-compact-time"
 	"github.com/kstenerud/go-concise-encoding/ce/events"
 	"github.com/kstenerud/go-concise-encoding/configuration"
+	"github.com/kstenerud/go-concise-encoding/rules"
 	"verif/harness/internal/ev"
 	"verif/harness/internal/fx"
 	"verif/harness/internal/rulesmodel"
@@ -264,6 +265,7 @@ func init() {
 					depth: c.Pick(2, 3), split: 2, checkPass: true, mcfg: rulesmodel.Config{LaxMarkers: true}}
 				rx.run(c)
 			}
+			c15Window(c)
 			h := &rsearch{prefix: nil, alphabet: c10Alphabet(), depth: 4, split: 1, checkPass: true, mcfg: rulesmodel.Config{LaxMarkers: true}}
 			h.run(c)
 		},
@@ -282,6 +284,63 @@ func recorderSelfTest() string {
 	return ""
 }
 
+// c15Window: all pairs and triples of array deliveries (whole, one chunk, split data, two chunks; strings, bytes, media,
+// identifiers) in one list, every byte slice handed over through ONE reusable window buffer with spare capacity, as a
+// streaming decoder does: what the next receiver gets must still be exactly what was sent.
+func c15Window(c *fx.Ctx) {
+	forms := [][]ev.E{
+		{ev.EArr(events.ArrayTypeString, 3, []byte("abc"))},
+		{ev.EABegin(events.ArrayTypeString), ev.EChunk(3, false), ev.EData([]byte("def"))},
+		{ev.EABegin(events.ArrayTypeString), ev.EChunk(8, false), ev.EData([]byte("ghi")), ev.EData([]byte("jklmn"))},
+		{ev.EABegin(events.ArrayTypeString), ev.EChunk(2, true), ev.EData([]byte("op")), ev.EChunk(3, false), ev.EData([]byte("q")), ev.EData([]byte("rs"))},
+		{ev.EABegin(events.ArrayTypeString), ev.EChunk(4, false), ev.EData([]byte("t\xc3")), ev.EData([]byte("\xa9u"))},
+		{ev.EArr(events.ArrayTypeUint8, 4, []byte{1, 2, 3, 4})},
+		{ev.EABegin(events.ArrayTypeUint16), ev.EChunk(2, false), ev.EData([]byte{5}), ev.EData([]byte{6, 7, 8})},
+		{ev.EMedia("a/b", []byte{9, 10, 11})},
+		{ev.EMBegin("a/b"), ev.EChunk(5, false), ev.EData([]byte{12, 13}), ev.EData([]byte{14, 15, 16})},
+		{ev.EArr(events.ArrayTypeResourceID, 3, []byte("r:x"))},
+		{ev.EMarker("mk"), ev.EArr(events.ArrayTypeString, 2, []byte("vw"))},
+		{ev.EUID(uidA)},
+	}
+	run := func(parts ...[]ev.E) {
+		doc := []ev.E{ev.EBD(), ev.EV(0), ev.EList()}
+		for _, p := range parts {
+			doc = append(doc, p...)
+		}
+		doc = append(doc, ev.EEnd(), ev.EED())
+		rec := &ev.Recorder{}
+		r := rules.NewRules(rec, configuration.New())
+		win := make([]byte, 64)
+		c.Add("window_delivery_docs", 1)
+		for i, e := range doc {
+			before := len(rec.Events)
+			if err := ev.TryDriveWindow(r, e, win); err != nil {
+				return // duplicate marker ids etc.: not this family's subject
+			}
+			c.Add("transitions", 1)
+			if msg := passThroughDiff(e, rec.Events[before:]); msg != "" {
+				c.Violation("passthrough-with-reused-caller-buffer:"+valueClass(e),
+					fmt.Sprintf("event %d (%s) of [%s], byte slices delivered through one reused buffer: %s", i, e.Key(), clipS(ev.Join(doc)), msg), rwitness{Events: doc[:i+1]})
+				return
+			}
+		}
+	}
+	for i := range forms {
+		if !c.Take() {
+			continue
+		}
+		for j := range forms {
+			run(forms[i], forms[j])
+			for k := range forms {
+				if i == 10 && k == 10 {
+					continue // the same marker twice
+				}
+				run(forms[i], forms[j], forms[k])
+			}
+		}
+	}
+}
+
 func c15Alphabet() []ev.E {
 	big70 := pow2(70)
 	snan := math.Float64frombits(0x7ff0000000000001)
@@ -295,6 +354,7 @@ func c15Alphabet() []ev.E {
 		ev.EInt(0), ev.EInt(-1), ev.EInt(math.MinInt64), ev.EInt(math.MaxInt64),
 		ev.EBigInt(nil), ev.EBigInt(big.NewInt(0)), ev.EBigInt(big70), ev.EBigInt(new(big.Int).Neg(big70)),
 		ev.EFloat(0), ev.EFloat(negZero), ev.EFloat(1.5), ev.EFloat(math.Inf(1)), ev.EFloat(math.Inf(-1)), ev.EFloat(math.NaN()), ev.EFloat(snan), ev.EFloat(qnanPayload),
+		ev.EFloat(math.Float64frombits(0x7ff8000000000000)), ev.EFloat(math.Float64frombits(0xfff8000000000000)), ev.EFloat(math.Float64frombits(0xfff0000000000001)), ev.EFloat(math.Float64frombits(0x7ff7ffffffffffff)),
 		ev.EBigFloat(nil), ev.EBigFloat(big.NewFloat(1.5)), ev.EBigFloat(new(big.Float).SetInf(true)), ev.EBigFloat(new(big.Float).SetPrec(200).SetInt(big70)),
 		ev.EDFloat(compact_float.DFloatValue(0, 0)), ev.EDFloat(compact_float.NegativeZero()), ev.EDFloat(compact_float.DFloatValue(-1, 15)), ev.EDFloat(compact_float.Infinity()),
 		ev.EDFloat(compact_float.NegativeInfinity()), ev.EDFloat(compact_float.QuietNaN()), ev.EDFloat(compact_float.SignalingNaN()),
@@ -312,7 +372,7 @@ func c15Alphabet() []ev.E {
 		ev.EABegin(events.ArrayTypeString), ev.EABegin(events.ArrayTypeUint16), ev.EABegin(events.ArrayTypeBit), ev.EMBegin("a/b"), ev.ECBegin(events.ArrayTypeCustomBinary, 5), ev.ECBegin(events.ArrayTypeCustomText, 6),
 		ev.EChunk(0, false), ev.EChunk(0, true), ev.EChunk(2, false), ev.EChunk(2, true), ev.EData([]byte("a")), ev.EData([]byte{0xc3}), ev.EData([]byte{0xa9}), ev.EData([]byte{}), ev.EData([]byte{1, 2}),
 		ev.EList(), ev.EMap(), ev.EEnd(), ev.EEdge(), ev.ENode(), ev.ERecType("x"), ev.ERec("x"), ev.EMarker("m"), ev.ERef("m"),
-		ev.EPad(), ev.ECom(false, "c"), ev.ECom(true, "multi\nline /* nested */"), ev.ECom(false, ""), ev.E{K: ev.Error}, ev.EED(),
+		ev.EPad(), ev.ECom(false, "c"), ev.ECom(true, "multi\nline /* nested */"), ev.ECom(false, ""), ev.ECom(false, "two\nlines"), ev.ECom(true, ""), ev.E{K: ev.Error}, ev.EED(),
 	}
 	return out
 }
